@@ -73,15 +73,16 @@ Dust2(X1, D, amp, da) ==
   IN (N(4) ++ (N(4) ** slope)) ** U
 \* A deposit must not mint more than its proportional increase of the invariant: minted / S <= (D1 - D0) / D0 on the
 \* independently solved D.  Dstar is the floor of the real root, so "minted * D0 > S * (D1 + 1 - D0)" proves a real
-\* excess (literal clause).  The code's own D0/D1 come from Newton iterations that stop when two iterates differ by at
-\* most one unit; the distance to the root that is left grows with the square root of the pool's lopsidedness
-\* (measured: at most (16 + sqrt(max reserve / min reserve)) / 10 units of D over 1.2e5 calls up to ratios of 1e22),
-\* and is worth that many LP base units since the supply never exceeds D in a reachable pool.  The dust clause allows
-\* tol = (16 + sqrt(lopsidedness)) units of D of the coarser asset and must hold.
+\* excess (literal clause).  The code's own D0 / D1 come from Newton iterations that stop when two iterates differ by at
+\* most one unit; the distance to the root that is left grows with the square root of the lopsidedness of the pool the
+\* iteration runs on (measured over 2e5 calls, ratios up to 1e22, deposits up to 2^100: at most a tenth of
+\* 16 + sqrt(max reserve / min reserve) units of D).  The dust clause gives the code's D0 that much room (e0, on the
+\* pool before the deposit) and its D1 that much (e1, on the pool after it) and must hold.
 Lopsided(hi, lo) == Sqrt(hi // NMax(One, lo))
-MintChecks(prefix, suffix, m, S, D0, D1, tol) ==
+MintChecks(prefix, suffix, m, S, D0, D1, e0, e1) ==
   LET lit == (m ** D0) \preceq (S ** ((D1 ++ One) -- D0))
   IN << <<prefix \o ".deposit.mint<=proportional-increase-of-the-invariant" \o suffix, lit>>,
         <<prefix \o ".deposit.mint-excess-within-rounding-dust" \o suffix,
-           lit \/ (D0 \succ tol /\ ((m -- One) ** (D0 -- tol)) \preceq (S ** ((D1 -- D0) ++ (Two ** tol))))>> >>
+           \/ lit \/ D0 \preceq e0
+           \/ ((m -- One) ** (D0 -- e0)) \preceq (S ** (((D1 -- D0) ++ e0) ++ e1))>> >>
 =============================================================================
